@@ -336,7 +336,11 @@ std::string do_let(World &w, const std::string &name, const std::string &f, cons
     return "err tensor-ok " + shapes_str(ts, isvec);
   }
   VarRec r;
-  r.has_n = true; r.n = rn; r.dev = dev; r.graph = graph; r.random = random; r.isvec = isvec;
+  // the handles are kept through copy construction + move assignment into existing (default) handles —
+  // what std::reverse / rotate / erase on a vector<Node>, or `acc = std::move(parts[1])`, do
+  r.has_n = true; r.dev = dev; r.graph = graph; r.random = random; r.isvec = isvec;
+  r.n.resize(rn.size());
+  for (std::size_t i = 0; i < rn.size(); ++i) { Node tmp(rn[i]); r.n[i] = std::move(tmp); }
   std::string out = "ok " + shapes_str(ns, isvec);
   if (terr) {
     out += mixed_dev ? " devmix" : " tensor-err";
